@@ -397,7 +397,7 @@ class G:
         n = vsize(V, self.env)
         op = self.draw(st.sampled_from(["+", "-", "*", "/"] + (["**"] if vclass(V) == "expr" else [])))
         side = self.draw(st.sampled_from(["right", "right", "left"]))
-        kinds = ["pyint", "pyfloat", "npfloat64"] + (["npint64", "arr0d"] if self.cfg.vec_np_scalar else [])
+        kinds = ["pyint", "pyfloat", "npfloat64"] + (["npint64", "npint32"] if self.cfg.vec_np_scalar else [])
         ops = [(3, lambda: self.num_operand(kinds))]
         if op != "**":
             if side == "right" or self.cfg.vec_left_array or op in ("+", "*"):
